@@ -7,6 +7,7 @@ import vlib
 import e2e
 import calc
 import streams
+import unitcorr
 
 ID = "C01"
 LEVEL = "proof"
@@ -68,6 +69,9 @@ def run(ctx):
     if ctx.coq_ok:
         mism += e2e.coq_compare("c01", coq_cases)
         mism += e2e.coq_calculus_compare("c01", calc_cases)
+        m1, n_aux = unitcorr.poly_aux(ctx, ctx.n(200, 2000))
+        m2, n_chain = unitcorr.rel_chain_fix(ctx, ctx.n(60, 600), failing, "C01")
+        mism += m1 + m2
     else:
         mism.append("model not built: analysis correspondence not run")
     dist = streams.distribution(recs)
